@@ -138,7 +138,7 @@ CHECKS = {
         note="the rational approximations of the PQ / sRGB curves are snapshot-guarded only (stated in evidence)",
         ref="DESIGN.md section 8.9"),
     "C12": dict(
-        technique="exhaustive decision-table extraction of the buffer-width predicate by abstract evaluation of MIR; sibling-implementation cross-checks (resolved callees and operators of the I32 vs I16 arms and of the i32 vs i16 trait impls); no saturating i16 arithmetic in the sample-processing crates (callee census); operation-multiset agreement of the scalar i16 / i32 transform kernels; operation ordering (shift at 32 bits before the narrowing cast) in the i16 token unpacker; evaluation of the four UnpackSigned copies from MIR; field-set agreement of the two arms of every narrow / wide branch in RenderContext",
+        technique="exhaustive decision-table extraction of the buffer-width predicate by abstract evaluation of MIR; sibling-implementation cross-checks (resolved callees and operators of the I32 vs I16 arms and of the i32 vs i16 trait impls); no saturating i16 arithmetic in the sample-processing crates (callee census); operation-multiset agreement of the scalar i16 / i32 transform kernels; operation ordering (shift at 32 bits before the narrowing cast) in the i16 token unpacker; evaluation of the four UnpackSigned copies from MIR; field-set agreement of the two arms of every narrow / wide branch in RenderContext; abstract evaluation from MIR of the Squeeze smooth-tendency function in both sample widths against the format's definition (R-TENDENCY)",
         text="Claimed narrowly: what selects the buffer width, and that both widths go through the same operations. narrow_modular equals "
              "`!force_wide && header flag` for all four input combinations and the builder setting reaches the render context; every match "
              "on ImageBuffer with separate 32-bit / 16-bit arms (15) and every i16/i32 pair of Sample/Sealed methods (12) use the same "
